@@ -133,6 +133,16 @@ CHECKS = {
             "lossy=true; JSON/YAML/OCTAVE of one projection agree on key paths, Markdown names every key. Sampled.",
             "Markdown is compared by key names and scalar text only (headings cannot close a nested block); key order is not asserted",
             "DESIGN.md §3 C14"),
+    "C15": ("exploration",
+            "per generated document: enumeration of all single-site model tampers re-rendered with the original seal; metamorphic respelling",
+            "Each generated document is sealed; it must verify in memory, after emit->parse, after being written (atomic_write_octave, "
+            "CLI seal -o + validate --verify-seal --require-seal) and keep its HASH when sealed again; lenient respellings of the "
+            "sealed text must verify; every single-site tamper of the content model (value, type, order, nesting/parent, key, "
+            "section id/name, target, META, envelope name, frontmatter incl. re-indentation, zone text incl. re-indentation) "
+            "combined with the original seal must be INVALID, as must each of 64 single-character changes of the stored hash; "
+            "no seal => NO_SEAL. All single-site tampers of each sampled document are enumerated; documents are sampled.",
+            "tampers touching only comments, the separator or the grammar sentinel are not generated (not in the property's list)",
+            "DESIGN.md §3 C15"),
 }
 
 NOT_YET = {
